@@ -547,3 +547,5 @@ def run(chk, S: Session):
 
     rb = chk.rule("R-C11-B", "clause of this statement decided by a rule of C17 (the full / per-dimension / trace-averaged Jacobian blocks the linearisations consume)", floor=9)
     borrow(chk, S, rb, "C17", lambda r, c: r == "R-C17-1")
+    rb2 = chk.rule("R-C11-B2", "'...and reject lift orders that the supplied coefficients cannot support': guard-table rows of C20 for the lifting API and for constraints built on a state with too few Taylor coefficients", floor=9)
+    borrow(chk, S, rb2, "C20", lambda r, c: r == "R-C20-1" and ("too few Taylor coefficients" in c or "lift order" in c or "jet_lift" in c))
